@@ -11,7 +11,47 @@ use serde_json::{json, Value};
 
 pub struct C17;
 
+/// A document built around ONE construct that brings an external crate into the output (so
+/// that the corresponding uses_* flag has to be set by that construct alone).
+fn single_construct_doc(g: &mut G) -> Value {
+    let constructs: Vec<Value> = vec![
+        json!({"type": "string", "format": "uuid"}),
+        json!({"type": "string", "format": "date-time"}),
+        json!({"type": "string", "format": "date"}),
+        json!({"type": "string", "pattern": "^[a-z]+$"}),
+        json!({"type": "array"}),
+        json!({"type": "array", "uniqueItems": true}),
+        json!({"type": "array", "items": {}}),
+        json!({"type": "array", "items": {}, "uniqueItems": true}),
+        json!({}),
+        json!(true),
+        json!({"type": "object"}),
+        json!({"type": "object", "additionalProperties": true}),
+        json!({"type": "object", "propertyNames": {"pattern": "^[a-z]+$"}}),
+        json!({"type": "array", "items": [{}, {"type": "integer"}], "minItems": 2, "maxItems": 2}),
+        json!({"type": ["string", "null"], "format": "uuid"}),
+        json!({"type": "object", "additionalProperties": {"type": "string", "format": "date-time"}}),
+        json!({"type": "integer", "default": 5}),
+        json!({"type": "array", "items": {"type": "string"}, "default": ["a", "b"]}),
+    ];
+    let c = g.pick(&constructs).clone();
+    let required = g.chance(1, 2);
+    let holder = match g.below(3) {
+        0 => json!({"type": "object", "properties": {"member": c, "plain": {"type": "integer"}}, "required": if required { vec!["member"] } else { vec![] }}),
+        1 => json!({"type": "object", "properties": {"plain": {"type": "integer"}}, "required": ["plain", "undeclared_member"]}),
+        _ => json!({"oneOf": [{"type": "object", "properties": {"v": c}, "required": ["v"], "additionalProperties": false}, {"type": "string", "enum": ["unit"]}]}),
+    };
+    json!({"definitions": {"SoleHolder": holder}})
+}
+
 pub fn gen_c17_case(g: &mut G) -> Value {
+    if g.chance(1, 5) {
+        let doc = single_construct_doc(g);
+        let mut s = Settings::default();
+        s.struct_builder = g.chance(1, 2);
+        let case = Case { settings: s, history: vec![Step::Root { doc }], ..Default::default() };
+        return gen::to_value(&case);
+    }
     let cfg = if g.chance(2, 3) { gs::Cfg::faithful() } else { gs::Cfg::wide() };
     let mut doc = gs::document(g, &cfg);
     // fixed-length arrays around std's limit of 32 for Default (and serde)
